@@ -6,7 +6,7 @@ From Coq Require Import List ZArith Lia Bool Arith.
 Import ListNotations.
 Require Import C02.Sums C02.Batch C02.Tensor C02.Dense C02.Op C02.Model C02.Spec.
 Require Import C02.ProofsDense C02.ProofsBase C02.ProofsExpand C02.ProofsCtor C02.ProofsMT C02.ProofsMatmul C02.ProofsRaw C02.ProofsAdd
-               C02.ProofsMul C02.ProofsProgram.
+               C02.ProofsMul C02.ProofsSub C02.ProofsMulM C02.ProofsBatch C02.ProofsAddDiag C02.ProofsProgram.
 
 (* the Gallina broadcast function used everywhere in the model and the specification is torch's documented rule *)
 Theorem C02_broadcast_shapes_is_torch_rule a b r :
@@ -66,8 +66,39 @@ Theorem C02_mul_constant_partial e c r :
   alg_mul_constant e c = Ok r -> denote r == dscale (denote e) c.
 Proof. exact (alg_mul_constant_correct0 e c r). Qed.
 
+(* operator - operator : self + other.mul(-1).  The negated operand [no] is the object other.mul(-1) builds; its constructor
+   invariants and the Zero-absorption side conditions are decidable and are checked on that object (ProofsProgram.safe). *)
+Theorem C02_sub_partial e o no r :
+  wf e -> wf o -> rows o = rows e -> cols o = cols e -> is_zero o = false -> mulc_cov o = true ->
+  alg_mul o (APy (-1)) = Ok no -> wf no -> zpath e = true -> zpath no = true -> zok e no = true ->
+  alg_sub e (AOp o) = Ok r -> denote r == dsub (denote e) (denote o) /\ bcompat (batch e) (batch o) = true.
+Proof. exact (alg_sub_correct e o no r). Qed.
+
+(* elementwise operator * operator (_mul_matrix): Dense on either side, the Diag family (keeps the diagonal of the other
+   factor), ConstantDiag * ConstantDiag, and MulLinearOperator for the rest (its value; the numerical root decompositions it
+   performs are not modelled).  Identity is excluded: finding C02-identity-mul-matrix. *)
+Theorem C02_mul_matrix_partial e o r :
+  wf e -> wf o -> rows o = rows e -> cols o = cols e -> is_ident e = false -> bcompat (batch e) (batch o) = true ->
+  alg_mul_matrix e o = Ok r -> denote r == dhad (denote e) (denote o).
+Proof. exact (alg_mul_matrix_correct e o r). Qed.
+
+(* _unsqueeze_batch (Dense, Diag, ConstantDiag, Identity, Zero, Triangular, Root family, Kronecker family, Sum family,
+   Matmul, ConstantMul; any nesting) *)
+Theorem C02_unsqueeze_partial e p r :
+  wf e -> (p <= length (batch e))%nat -> alg_unsqueeze e p = Ok r -> denote r == dunsqueeze (denote e) p.
+Proof. exact (alg_unsqueeze_correct e p r). Qed.
+
+(* add_jitter / add_diagonal with a 0-d diagonal, every override of the model (base -> AddedDiag with a ConstantDiag, Diag
+   family, Triangular, the three added-diagonal classes, Kronecker -> KroneckerProductAddedDiag, LowRankRoot ->
+   LowRankRootAddedDiag): the object denotes A + c I.  ZeroLinearOperator.add_diagonal is a recorded defect (zpath). *)
+Theorem C02_add_diagonal0_partial e d r :
+  wf e -> scalar0 d -> zpath e = true -> alg_add_diagonal e d = Ok r ->
+  denote r == dadd (denote e) (dconstdiag d (cols e)).
+Proof. exact (alg_add_diagonal_correct0 e d r). Qed.
+
 (* MULTI-STEP PROGRAMS (the unbounded quantifier of the property), by induction on the program: for every program built from
-   the covered operations (see ProofsProgram.covered: leaves of ANY class, +, @, * python number in either order, expand, .mT) in which no step
+   the covered operations (see ProofsProgram.covered: leaves of ANY class, +, -, elementwise *, @, * python number in either order, expand, unsqueeze,
+   .mT, add_jitter, add_diagonal with a 0-d diagonal) in which no step
    hits a recorded defect cell, if the library-side evaluation (eval_alg: the objects the dispatching methods build, step
    after step) returns an object r and the same program is defined on dense tensors (eval_dense: torch semantics), then r
    denotes exactly the dense value.  Operations outside [covered] are listed in design_notes/C02.md. *)
@@ -86,7 +117,9 @@ Qed.
 Example C02_program_example :
   exists p r D, covered p = true /\ safe p = true /\ eval_alg p = Ok r /\ eval_dense p = Ok D.
 Proof.
-  exists (PBinT BMul (PBin BAdd (PmT (PBin BMatmul (PExpand (PLeaf (Diag (dones [] 2 1))) [3%nat]) (PLeaf (Dense (dzero [] 2 2)))))
-                               (PLeaf (RootC KRoot (Dense (dones [] 2 1))))) (APy 4)).
+  exists (PAddJitter (PBin BSub (PBinT BMul (PBin BAdd (PmT (PBin BMatmul (PExpand (PLeaf (Diag (dones [] 2 1))) [3%nat])
+                                                                         (PLeaf (Dense (dzero [] 2 2)))))
+                                                         (PLeaf (RootC KRoot (Dense (dones [] 2 1))))) (APy 4))
+                             (PUnsqueeze (PLeaf (KronC KKron [Dense (dones [] 2 1); Dense (dones [] 1 2)])) 0%nat)) 2).
   eexists. eexists. repeat split; reflexivity.
 Qed.
